@@ -141,6 +141,7 @@ type lockedASG struct {
 }
 
 func (l lockedASG) DescribeAutoScalingGroups(in *autoscaling.DescribeAutoScalingGroupsInput) (*autoscaling.DescribeAutoScalingGroupsOutput, error) {
+	time.Sleep(500 * time.Microsecond) // a refresh takes time: scans get a noticeable duration, stops arrive mid-scan
 	l.mu.Lock()
 	defer l.mu.Unlock()
 	return l.ASGService.DescribeAutoScalingGroups(in)
@@ -195,6 +196,7 @@ type summary struct {
 	SetDesired    int     `json:"set_desired_calls"`
 	Terminations  int     `json:"terminate_calls"`
 	StopLatencyMs float64 `json:"stop_latency_ms"`
+	CallsAfterStop int64  `json:"calls_after_loop_returned"`
 	Stopped       bool    `json:"stopped"`
 	LoopError     string  `json:"loop_error"`
 	Panic         string  `json:"panic"`
@@ -405,6 +407,17 @@ func main() {
 			sum.StopLatencyMs = -1
 		}
 	}
+	// once RunForever has returned nothing of escalator may still be running: no API call may arrive any more
+	// (the informer-like goroutine and the scraper never go through the client or the cloud)
+	callsAt := func() int64 {
+		cloudMu.Lock()
+		n := int64(len(j.Events))
+		cloudMu.Unlock()
+		return n + atomic.LoadInt64(&st.updates) + atomic.LoadInt64(&st.deletes) + atomic.LoadInt64(&st.gets)
+	}
+	before := callsAt()
+	time.Sleep(400 * time.Millisecond)
+	sum.CallsAfterStop = callsAt() - before
 	close(done)
 	wg.Wait()
 	if lerr != nil {
